@@ -173,3 +173,7 @@ impl Debug for Cleanable {
         f.debug_struct("Cleanable").finish_non_exhaustive()
     }
 }
+
+#[cfg(kani)]
+#[path = "/verif/kani/cleaners_proofs.rs"]
+pub(crate) mod verif_proofs; // verification hook (H2): specs and contract harnesses live in /verif
